@@ -52,28 +52,51 @@ def applySwap (n a b : Nat) (v : Vec) : Vec :=
 
 def one_ : Z8 := 1
 def i_ : Z8 := Z8.I
-/-- Documented matrices of the one-qubit stabilizer gates (scaled into the ring where needed). -/
-def mat1 : String → Option Mat2
-  | "I" => some ⟨1, 0, 0, 1⟩
-  | "X" => some ⟨0, 1, 1, 0⟩
-  | "Y" => some ⟨0, -i_, i_, 0⟩
-  | "Z" => some ⟨1, 0, 0, -1⟩
-  | "H" => some ⟨1, 1, 1, -1⟩                                   -- √2·H
-  | "S" => some ⟨1, 0, 0, i_⟩
-  | "Sdg" => some ⟨1, 0, 0, -i_⟩
-  | "V" => some ⟨one_ + i_, one_ - i_, one_ - i_, one_ + i_⟩    -- 2·V,  V = ½[[1+i,1−i],[1−i,1+i]]
-  | "Vdg" => some ⟨one_ - i_, one_ + i_, one_ + i_, one_ - i_⟩  -- 2·V†
-  | _ => none
 
-/-- State-vector semantics of library stabilizer gate `name` on qubits `bits` (distinct, in range). -/
-def applyGate (name : String) (n : Nat) (bits : List Nat) (v : Vec) : Option Vec :=
-  match name, bits with
-  | "CX", [c, q] => some (applyC1 ⟨0, 1, 1, 0⟩ n c q v)
-  | "CY", [c, q] => some (applyC1 ⟨0, -i_, i_, 0⟩ n c q v)
-  | "CZ", [c, q] => some (applyC1 ⟨1, 0, 0, -1⟩ n c q v)
-  | "Swap", [a, b] => some (applySwap n a b v)
-  | nm, [q] => (mat1 nm).map fun m => apply1 m n q v
+/-- The library's primitive stabilizer gates (the gates with `is_stabilizer() = true`). -/
+inductive SGate where
+  | I | X | Y | Z | H | S | Sdg | V | Vdg | CX | CY | CZ | Swap
+deriving DecidableEq, Repr, Inhabited
+
+namespace SGate
+/-- the Rust struct name -/
+def name : SGate → String
+  | I => "I" | X => "X" | Y => "Y" | Z => "Z" | H => "H" | S => "S" | Sdg => "Sdg" | V => "V" | Vdg => "Vdg"
+  | CX => "CX" | CY => "CY" | CZ => "CZ" | Swap => "Swap"
+def all1 : List SGate := [I, X, Y, Z, H, S, Sdg, V, Vdg]
+def all2 : List SGate := [CX, CY, CZ, Swap]
+def all : List SGate := all1 ++ all2
+def ofName? (s : String) : Option SGate := all.find? (fun g => g.name == s)
+def arity (g : SGate) : Nat := if all1.contains g then 1 else 2
+end SGate
+
+/-- Documented matrices of the one-qubit stabilizer gates and of the controlled operation of the
+controlled ones (scaled into the ring where needed); `none` for Swap. -/
+def SGate.mat : SGate → Option Mat2
+  | .I => some ⟨1, 0, 0, 1⟩
+  | .X | .CX => some ⟨0, 1, 1, 0⟩
+  | .Y | .CY => some ⟨0, -i_, i_, 0⟩
+  | .Z | .CZ => some ⟨1, 0, 0, -1⟩
+  | .H => some ⟨1, 1, 1, -1⟩                                   -- √2·H
+  | .S => some ⟨1, 0, 0, i_⟩
+  | .Sdg => some ⟨1, 0, 0, -i_⟩
+  | .V => some ⟨one_ + i_, one_ - i_, one_ - i_, one_ + i_⟩    -- 2·V,  V = ½[[1+i,1−i],[1−i,1+i]]
+  | .Vdg => some ⟨one_ - i_, one_ + i_, one_ + i_, one_ - i_⟩  -- 2·V†
+  | .Swap => none
+
+/-- State-vector semantics of library stabilizer gate `g` on qubits `bits` (distinct, in range);
+`none` if the number of operands is not the gate's. -/
+def applyGateG (g : SGate) (n : Nat) (bits : List Nat) (v : Vec) : Option Vec :=
+  match g, bits with
+  | .Swap, [a, b] => some (applySwap n a b v)
+  | .CX, [c, q] | .CY, [c, q] | .CZ, [c, q] => g.mat.map fun m => applyC1 m n c q v
+  | .I, [q] | .X, [q] | .Y, [q] | .Z, [q] | .H, [q] | .S, [q] | .Sdg, [q] | .V, [q] | .Vdg, [q] =>
+    g.mat.map fun m => apply1 m n q v
   | _, _ => none
+
+/-- the same by struct name (used by the driver) -/
+def applyGate (name : String) (n : Nat) (bits : List Nat) (v : Vec) : Option Vec :=
+  (SGate.ofName? name).bind fun g => applyGateG g n bits v
 
 /-- projector on `qubit q = b` -/
 def proj (n q : Nat) (b : Bool) (v : Vec) : Vec :=
@@ -194,8 +217,8 @@ def gens (n : Nat) : List G :=
   (List.range n).map G.h ++ (List.range n).map G.s ++
   ((List.range n).flatMap fun c => ((List.range n).filter (· != c)).map fun t => G.cx c t)
 
-def G.name : G → String
-  | .h _ => "H" | .s _ => "S" | .cx _ _ => "CX"
+def G.gate : G → SGate
+  | .h _ => .H | .s _ => .S | .cx _ _ => .CX
 def G.bits : G → List Nat
   | .h q => [q] | .s q => [q] | .cx c t => [c, t]
 
